@@ -27,7 +27,9 @@ pub struct GlideProcessor {
 impl GlideProcessor {
     /// `GlideProcessor::new(sr)` is a new glide processor with sample rate `sr`
     pub fn new(sample_rate_hz: f32) -> Self {
-        let max_fc = sample_rate_hz / 2.0_f32;
+        // the bilinear single pole lowpass has its pole at zero for fs/4, which is the fastest it can settle
+        // any cutoff above that puts the pole on the negative axis and the output rings, at fs/2 it never stops
+        let max_fc = sample_rate_hz / 4.0_f32;
 
         let coeffs = coeffs(sample_rate_hz.hz(), max_fc.hz());
 
@@ -46,7 +48,7 @@ impl GlideProcessor {
     ///
     /// * `t` - the new value for the glide control time, in `[0.0, 10.0]`
     ///
-    /// Times that would be faster than sample_rate/2 are clamped.
+    /// Times that would be faster than sample_rate/4 are clamped.
     ///
     /// This function can be somewhat costly, so don't call it more than necessary
     pub fn set_time(&mut self, t: f32) {
